@@ -10,7 +10,7 @@ from trie.exceptions import PerfectVisibility, FullDirectionalVisibility  # noqa
 from eth_utils import ValidationError  # noqa: E402
 
 ID = "C11"
-LEAN_IMPORTS = ["PyTrie.Props.C11"]
+LEAN_IMPORTS = ["PyTrie.Props.C11", "PyTrie.Props.NonVacuity"]
 THEOREMS = [
     "PyTrie.Props.C11.wf_runCalls",
     "PyTrie.Props.C11.markAllComplete_spec",
@@ -25,6 +25,7 @@ THEOREMS = [
     "PyTrie.Props.C11.nearestRight_spec",
     "PyTrie.Props.C11.nearestUnknown_spec",
     "PyTrie.Props.C11.deserialize_serialize",
+    "PyTrie.Props.NonVacuity.fog_wf",
 ]
 RULE = ("random exploration scripts on a fresh fog: explore with leaf (no), extension (one, length 1-4), branch (several "
         "length-1, nibbles 0 and 15 included) and mixed-length sub-segment sets, valid and invalid (duplicates, nested, unknown "
